@@ -54,19 +54,25 @@ def fd_counter_lock():
     witness = None
     ok = guarded and not returns_shared
     if not ok:
-        witness = forced_duplicate_ids()
+        # suspend thread A where the critical section is left open: at the unguarded return if there is one, else right after the increment
+        ret_line = None
+        if returns_shared:
+            first = inspect.getsourcelines(Protocol.get_next_system_counter)[1]
+            rets = [n.lineno for n in ast.walk(node) if isinstance(n, ast.Return)]
+            ret_line = first + rets[-1] - 1 if rets else None
+        witness = forced_duplicate_ids(ret_line)
         ok = witness is not None and witness["a"] != witness["b"]
     return {"obligations": [{"name": "counter-update-is-atomic", "ok": ok, "witness": dict(witness or {}, guarded=guarded, returns_shared_field=returns_shared),
                              "detail": "get_next_system_counter updates and re-reads the shared counter outside any lock: two concurrent callers received the same system bytes"}],
             "domain": "get_next_system_counter (AST) + one forced two-thread schedule", "size": 1, "exhaustive": False, "samples": [{"schedule": "A after increment | B whole call | A return"}]}
 
 
-def forced_duplicate_ids():
+def forced_duplicate_ids(stop_line=None):
     proto, conn, log = H.make_hsms(sync=True)
     proto._system_counter = 100
     code = Protocol.get_next_system_counter.__code__
     src, first = inspect.getsourcelines(Protocol.get_next_system_counter)
-    stop = next((first + i for i, l in enumerate(src) if "if self._system_counter >" in l), None)
+    stop = stop_line or next((first + i for i, l in enumerate(src) if "if self._system_counter >" in l), None)
     if stop is None:
         return None
     at, go = threading.Event(), threading.Event()
@@ -92,8 +98,13 @@ def forced_duplicate_ids():
     ta.start()
     if not at.wait(5):
         return None
-    out["b"] = proto.get_next_system_counter()
+    box = {}
+    tb = threading.Thread(target=lambda: box.setdefault("b", proto.get_next_system_counter()), daemon=True)
+    tb.start()
+    tb.join(2.0)          # (B may legitimately block on the lock while A is suspended inside the critical section)
     go.set()
+    tb.join(5 * H.scale())
+    out["b"] = box.get("b")
     ta.join(5 * H.scale())
     out["schedule"] = "A: counter += 1 | B: whole call | A: wrap check, return counter"
     return out
